@@ -68,6 +68,7 @@ class Check:
             'install': rng.random() < 0.7,
             'wraps': rng.randint(0, 4),
             'cfg_modes': rng.sample(['configuration', 'copy', 'command'], rng.randint(1, 3)),
+            'cc_checks': rng.random() < 0.6,
         }
         opts = {}
         if rng.random() < 0.5:
@@ -110,6 +111,22 @@ class Check:
             add.append("install_data('data.txt', install_dir: 'share/c06')\ninstall_headers('inst.h')\n")
             with open(os.path.join(sd, 'inst.h'), 'w') as f:
                 f.write('#define INST 1\n')
+        head: T.List[str] = []
+        if ex.get('cc_checks'):
+            # compiler checks: their results are cached in coredata.dat across reconfigures (history dimension)
+            head.append("cc = meson.get_compiler('c')\n"
+                       "supp = cc.get_supported_arguments(['-Wundef', '-Woverloaded-virtual', '-Wshadow', '-Wno-such-warning-at-all', '-fvisibility=hidden', '-Wsuggest-override'])\n"
+                       "add_project_arguments(supp, language: 'c')\n"
+                       "ccdata = configuration_data()\n"
+                       "ccdata.set10('HAVE_STDIO', cc.has_header('stdio.h'))\n"
+                       "ccdata.set10('HAVE_NOPE', cc.has_header('no/such/header.h'))\n"
+                       "ccdata.set10('HAVE_PRINTF', cc.has_function('printf'))\n"
+                       "ccdata.set10('HAVE_OVERLOADED_VIRTUAL', cc.has_argument('-Woverloaded-virtual'))\n"
+                       "ccdata.set('SIZEOF_INT', cc.sizeof('int'))\n"
+                       "ccdata.set10('COMPILES', cc.compiles('int main(void) { return 0; }', name: 'trivial'))\n"
+                       "ccdata.set('SUPPORTED', ' '.join(supp))\n"
+                       "configure_file(output: 'c06_cc.h', configuration: ccdata)\n")
+            cfg_outputs.append('c06_cc.h')
         for mode in ex.get('cfg_modes', []):
             if mode == 'configuration':
                 add.append("cdata = configuration_data()\ncdata.set('ZVAL', 1)\ncdata.set('AVAL', 2)\ncdata.set10('FLAG', true)\n"
@@ -121,8 +138,13 @@ class Check:
             elif mode == 'command':
                 add.append("configure_file(output: 'c06_cmd.h', command: [py, files('gen.py'), 'define', '@OUTPUT@', 'CMD_VAL', '7'])\n")
                 cfg_outputs.append('c06_cmd.h')
-        with open(os.path.join(sd, 'meson.build'), 'a') as f:
-            f.write(''.join(add))
+        with open(os.path.join(sd, 'meson.build')) as f:
+            lines = f.readlines()
+        # project arguments must be added before the first target: right after the preamble
+        k = next(i for i, l in enumerate(lines) if l.startswith('gen = generator(')) + 1
+        lines[k:k] = head
+        with open(os.path.join(sd, 'meson.build'), 'w') as f:
+            f.write(''.join(lines) + ''.join(add))
         if ex.get('wraps'):
             sp = os.path.join(sd, 'subprojects')
             os.makedirs(sp, exist_ok=True)
@@ -409,7 +431,7 @@ class Check:
             c = copy.deepcopy(sc)
             del c['spec']['ents'][i]
             yield c
-        for key, simple in (('pkgconfig', False), ('install', False), ('wraps', 0), ('tests', 1)):
+        for key, simple in (('pkgconfig', False), ('install', False), ('wraps', 0), ('tests', 1), ('cc_checks', False)):
             if sc['extras'].get(key) != simple:
                 c = copy.deepcopy(sc)
                 c['extras'][key] = simple
